@@ -449,7 +449,7 @@ impl Prop for C10 {
     fn meta(&self) -> Meta {
         Meta {
             level: "exploration",
-            rule: "seeded streams of the cnf / wcnf / gcnf / btor2 / aag-section / aig-section parsers generated on the fly by StreamSource (never materialised): items (clauses, weighted/grouped clauses, split clauses, BTOR2 lines incl. long justice/constant/symbol lines, and-gates) of at most max_item bytes, bursts of up to 200k consecutive short comment/blank lines, total length N >= 8 x bound; per run a chunk size in {1..16384}, a read-size policy (full / one line per read / one byte / random) and optional Interrupted; observation: per-thread counting global allocator, baseline taken before the parser is built, peak sampled at every item; oracle: peak - baseline <= 16*chunk + 32*max_item + 64 KiB (independent of N); non-trivial iff at least 8 x bound bytes were streamed; distinct = distinct case parameters",
+            rule: "seeded streams of the cnf / wcnf / gcnf / btor2 / aag-section / aig-section parsers generated on the fly by StreamSource (never materialised): items (clauses, weighted/grouped clauses, split clauses, BTOR2 lines incl. long justice/constant/symbol lines, and-gates) of at most max_item bytes, bursts of up to 200k consecutive short comment/blank lines, runs of up to 200k filler lines between two literals of one split clause, an optional malformed last BTOR2 line (justice with a declared count of millions), total length N >= 8 x bound; per run a chunk size in {1..16384}, a read-size policy (full / one line per read / one byte / random) and optional Interrupted; observation: per-thread counting global allocator, baseline taken before the parser is built, peak sampled at every item; oracle: peak - baseline <= 16*chunk + 32*max_item + 64 KiB (independent of N); non-trivial iff at least 8 x bound bytes were streamed; distinct = distinct case parameters",
             assumptions: vec![
                 "the constants of the bound come from the reader's own policy (realign beyond 2 chunks, Vec doubling, one reusable buffer per item) with a factor >= 2 of slack; they are upper bounds for a correct tree, not a specification of it",
                 "allocations are attributed to the worker thread that runs the parser (thread-local counters)",
